@@ -291,6 +291,58 @@ func TestC11(t *testing.T) {
 		r.Exhaustive("positions", !r.Replaying())
 	}
 
+	// the same item mentioned at two walked positions (a self-Delete: the actor is also the object; an icon that is also the
+	// image): once as a bare IRI or as a clean embedded copy, once embedded with private recipients - both must end up clean
+	if r.WantLayer("same-id", true) {
+		total, done := 0, 0
+		for _, gt := range c11Types {
+			walked := append([]string{}, c11Walked...)
+			if gt == "Activity" {
+				walked = append(walked, c11Activity...)
+			}
+			for _, p1 := range walked {
+				for _, p2 := range walked {
+					if p1 == p2 {
+						continue
+					}
+					for _, firstForm := range []string{"iri", "clean-copy"} {
+						c := &vocab.Counter{}
+						top, tv := mkNode(c, gt)
+						shared := c.ID("shared")
+						second, sv := mkNode(c, "Actor")
+						sv.FieldByName("ID").SetString(string(shared))
+						var first ap.Item = shared
+						if firstForm == "clean-copy" {
+							cp := vocab.CloneItem(second)
+							cv := reflect.ValueOf(cp).Elem()
+							cv.FieldByName("Bto").Set(reflect.Zero(cv.FieldByName("Bto").Type()))
+							cv.FieldByName("BCC").Set(reflect.Zero(cv.FieldByName("BCC").Type()))
+							first = cp
+						}
+						if !setPos(tv, p1, first, false) || !setPos(tv, p2, second, false) {
+							continue
+						}
+						total++
+						cell := fmt.Sprintf("%s %s=%s(shared id) %s=embedded with private recipients", gt, p1, firstForm, p2)
+						if !r.WantCell(cell) {
+							continue
+						}
+						done++
+						dump := vocab.Dump(top)
+						ds, planted, _ := c11Check(top)
+						r.Case(cell+dump, planted > 0, "same-id "+firstForm)
+						if done%397 == 0 {
+							r.Sample(cell, map[string]interface{}{"layer": "same-id", "cell": cell, "value": dump})
+						}
+						reportAll(r, "same-id", cell, ds, dump)
+					}
+				}
+			}
+		}
+		r.Cells(total, done)
+		r.Exhaustive("same-id", !r.Replaying())
+	}
+
 	r.Rapid(t, "random", r.Pick(2000, 20000), func(t *rapid.T) {
 		gt := rapid.SampledFrom(c11Types).Draw(t, "gotype")
 		depth := rapid.IntRange(1, 3).Draw(t, "depth")
